@@ -11,7 +11,7 @@ _int_re = re.compile(rb'-?(0|[1-9][0-9]*)')
 
 def plan(prop, tier):
     q = tier == 'quick'
-    flavours = ['asan', 'plain'] if q else ['asan', 'plain', 'msan']
+    flavours = ['asan', 'plain'] if q else ['asan', 'plain', 'msan', 'efence']
     shards = []
     n = 16 if q else 64
     per = {'C04': 1200, 'C05': 1500, 'C09': 160}[prop] if q else {'C04': 30000, 'C05': 30000, 'C09': 4000}[prop]
